@@ -5,7 +5,7 @@
 d=$(cd "$1" && pwd); cd /verif; . ./env.sh
 w=/tmp/refac.$$; mkdir -p $w
 git -C /repo ls-files -z | (cd /repo && xargs -0 cp --parents -t $w)
-(cd $w && git apply "$d/patch.diff") || { echo "REFACTOR $d: APPLY-FAILED"; rm -rf $w; exit 3; }
+(cd $w && git apply "$d/${PATCH:-patch.diff}") || { echo "REFACTOR $d: APPLY-FAILED"; rm -rf $w; exit 3; }
 res=""
 (cd $w && go build ./... >/dev/null 2>&1) && res="$res build=ok" || res="$res build=FAIL"
 (cd $w && go test -vet=off -count=1 ./... >/dev/null 2>&1) && res="$res suite=pass" || res="$res suite=FAIL"
